@@ -207,6 +207,7 @@ pub fn c12() -> PropDef {
         assumptions: COMMON_ASSUMPTIONS,
         tiny: no_tiny,
         long: None,
+        growth: None,
     }
 }
 
@@ -223,8 +224,7 @@ pub fn value_fail(case: &Case, r: &RunResult, m: &Model) -> Option<Fail> {
         (_, Err(_)) => unexpected_panic(case, r),
         (Term::CollectVec | Term::Collect, Ok(Out::Seq(g))) => (*g != out).then(|| Verdict::fail(format!("collect: {}", first_diff(g, &out)), sig("order"))),
         (Term::CollectInto { .. }, Ok(Out::Seq(g))) => {
-            let mut e = prefix_values(case, &r.term);
-            e.extend(out.iter().copied());
+            let e = collect_into_expected(case, &r.term, &out);
             (*g != e).then(|| Verdict::fail(format!("collect_into: {}", first_diff(g, &e)), sig("collect_into")))
         }
         (Term::CollectX, Ok(Out::Seq(g))) => (sorted(g) != sorted(&out)).then(|| Verdict::fail("collect_x is not a permutation of the sequential result", sig("multiset"))),
@@ -545,6 +545,7 @@ pub fn c15() -> PropDef {
         assumptions: COMMON_ASSUMPTIONS,
         tiny: no_tiny,
         long: Some(({ let mut c = GenCfg::long_sched(); c.pos = ParamPos::OnSource; c.terms = vec![TermClass::Collect, TermClass::CollectX, TermClass::Count, TermClass::ReduceFamily, TermClass::ShortCircuit, TermClass::ShortCircuit, TermClass::ShortCircuit]; c }, 500, 4000)),
+        growth: None,
     }
 }
 
